@@ -37,6 +37,30 @@ def tryFromBytes (b : Nat) (rest : List Nat) : Except DecErr Op × List Nat :=
       | some op => (.ok op, rest.drop k)
       | none => (.error (.invalidOpcode b), rest)
 
+/-- the same function without walking the whole remaining input for every op (used by compiled code only:
+the `csimp` lemma below is a kernel-checked equality, not an assumption) -/
+def tryFromBytesFast (b : Nat) (rest : List Nat) : Except DecErr Op × List Nat :=
+  match immBytes b with
+  | none => (.error (.invalidOpcode b), rest)
+  | some k =>
+    if (rest.take k).length < k then (.error .notEnoughBytes, [])
+    else
+      match ofOpcode b (wordOfBytes (rest.take k)) with
+      | some op => (.ok op, rest.drop k)
+      | none => (.error (.invalidOpcode b), rest)
+
+@[csimp] theorem tryFromBytes_eq_fast : @tryFromBytes = @tryFromBytesFast := by
+  funext b rest
+  unfold tryFromBytes tryFromBytesFast
+  cases immBytes b with
+  | none => rfl
+  | some k =>
+    simp only [List.length_take]
+    have : (min k rest.length < k) = (rest.length < k) := by
+      apply propext
+      constructor <;> intro h <;> omega
+    simp only [this]
+
 theorem tryFromBytes_length (b : Nat) (rest : List Nat) : (tryFromBytes b rest).2.length ≤ rest.length := by
   unfold tryFromBytes
   split
